@@ -8,17 +8,21 @@ Open Scope N_scope.
 Lemma all_closed_true : all_closed = true.
 Proof. vm_cast_no_check (eq_refl true). Qed.
 
+Lemma packed_mk kc sh ov : packed_class (mk_obj kc sh ov) = packed_class (mk_obj kc (false, O, O) []).
+Proof. reflexivity. Qed.
+Lemma closed1_d_eq dc kc sh ov : closed1_d (dfl_of dc kc) (mk_obj kc sh ov) = closed1 dc (mk_obj kc sh ov).
+Proof. unfold closed1, closed1_d, draw_obj, draw1, dfl_of. rewrite (packed_mk kc sh ov). reflexivity. Qed.
+
 Theorem refs_closed_all_lemma : forall dc kc sh ov,
   In dc diagram_classes -> In kc (kinds_classes dc) -> In sh (shapes_of (fst kc)) -> In ov override_menu ->
   closed1 dc (mk_obj kc sh ov) = true.
 Proof.
   intros dc kc sh ov Hdc Hkc Hsh Hov.
-  pose proof all_closed_true as H. unfold all_closed in H.
-  rewrite forallb_forall in H. specialize (H dc Hdc).
-  rewrite forallb_forall in H. specialize (H kc Hkc). cbv zeta in H.
-  rewrite forallb_forall in H. specialize (H sh Hsh).
-  rewrite forallb_forall in H. specialize (H ov Hov).
-  exact H.
+  pose proof (proj1 (forallb_forall closed_dc diagram_classes) all_closed_true dc Hdc) as H1.
+  pose proof (proj1 (forallb_forall (closed_kc dc) (kinds_classes dc)) H1 kc Hkc) as H2.
+  pose proof (proj1 (forallb_forall (closed_sh (dfl_of dc kc) kc) (shapes_of (fst kc))) H2 sh Hsh) as H3.
+  pose proof (proj1 (forallb_forall (fun ov => closed1_d (dfl_of dc kc) (mk_obj kc sh ov)) override_menu) H3 ov Hov) as H4.
+  rewrite <- closed1_d_eq. exact H4.
 Qed.
 
 (* a closed single-object drawing, spelled out: every referenced id is defined *)
